@@ -133,16 +133,27 @@ def run(m, chk):
     # a float sum taken another way (sum() is compensated since Python 3.12) differs by an ulp and the vector is not clamped
     wq = G + "weight"
     wfi = r.prog.func(wq)
+    from .common import expand_locals
+
+    # the cumulative list: `L[i + 1] = L[i] + w` / `L[i] = L[i - 1] + w`
+    cumul = {t_.value.id for a_ in ast.walk(wfi.node) if isinstance(a_, ast.Assign) and len(a_.targets) == 1 for t_ in [a_.targets[0]] if isinstance(t_, ast.Subscript) and isinstance(t_.value, ast.Name) and isinstance(a_.value, ast.BinOp) and isinstance(a_.value.op, ast.Add) and any(isinstance(x_, ast.Subscript) and isinstance(x_.value, ast.Name) and x_.value.id == t_.value.id for x_ in ast.walk(a_.value))}
     pads = []
     for b_ in ast.walk(wfi.node):
-        if isinstance(b_, ast.BinOp) and isinstance(b_.op, ast.Add) and isinstance(b_.right, ast.BinOp) and isinstance(b_.right.op, ast.Mult):
-            lst = b_.right.right if isinstance(b_.right.right, ast.List) else b_.right.left if isinstance(b_.right.left, ast.List) else None
-            mid = b_.left.right if isinstance(b_.left, ast.BinOp) and isinstance(b_.left.op, ast.Add) else b_.left
-            if lst is not None and len(lst.elts) == 1 and isinstance(mid, ast.Name):
-                pads.append((b_, lst.elts[0], mid.id))
+        if isinstance(b_, ast.BinOp) and isinstance(b_.op, ast.Mult):
+            lst = b_.right if isinstance(b_.right, ast.List) else b_.left if isinstance(b_.left, ast.List) else None
+            if lst is None or len(lst.elts) != 1:
+                continue
+            el = lst.elts[0]
+            if isinstance(el, ast.Name):
+                el = expand_locals(wfi, el, depth=1)  # `umax` -> what it was computed from; a subscript of the list stays as it is
+            if isinstance(el, ast.Call) and len(el.args) == 1 and isinstance(el.args[0], ast.Constant) and el.args[0].value == 0:
+                continue  # the leading copies: cls(0)
+            if isinstance(el, ast.Constant) and el.value == 0:
+                continue
+            pads.append((b_, el, next(iter(sorted(cumul)), "?")))
     chk.floor("CLAMP-SAME", f"trailing clamped copies in {wq}", len(pads), 1)
     for b_, el, mid in pads:
-        okp = isinstance(el, ast.Subscript) and isinstance(el.value, ast.Name) and el.value.id == mid and seg(el.slice) in ("-1", "len(%s) - 1" % mid)
+        okp = isinstance(el, ast.Subscript) and isinstance(el.value, ast.Name) and el.value.id in cumul and seg(el.slice) in ("-1", "len(%s) - 1" % el.value.id)
         chk.ob("CLAMP-SAME", f"{wq}: the trailing copies are `{mid}[-1]` itself", okp, loc=f"{wfi.module}.py:{b_.lineno}",
                detail="" if okp else f"{wq}: the trailing clamped copies are `{seg(el, 30)}`, not the last element of `{mid}`: computed separately, the total of float weights can differ by an ulp from the running sum (0.1 + 0.2 + 0.3), the last knot then occurs once instead of degree + 1 times and the vector is refused (ValueError) for weights that are perfectly valid",
                func=wq, construct="trailing copies not the last knot itself")
